@@ -10,6 +10,8 @@ ID = 'C06'
 THEOREMS = [
     'Sourcer.C06_call_is_body_with_arguments',
     'Sourcer.C06_arguments_bind_parameters',
+    'Sourcer.C06_call_means_its_expansion_closed_arguments',
+    'Sourcer.C06_more_fuel_same_outcome',
     'Sourcer.C05_flat_locals_realise_lexical_scoping',
 ]
 TIE_MODULES = []
